@@ -76,6 +76,7 @@ pub fn apply(obj: &mut Object, op: &str) -> String {
         "push" => (obj.push(key(n(1)), val(n(2))) as u8).to_string(),
         "pushe" => (obj.push_entry(Entry::new(key(n(1)), val(n(2)))) as u8).to_string(),
         "pushf" => (obj.push_front(key(n(1)), val(n(2))) as u8).to_string(),
+        "pushef" => (obj.push_entry_front(Entry::new(key(n(1)), val(n(2)))) as u8).to_string(),
         "rmat" => match obj.remove_at(n(1)) {
             Some(e) => estr(&e),
             None => "none".into(),
@@ -223,11 +224,21 @@ pub fn eval(line: &str) -> String {
         for op in &t[2..] {
             results.push(apply(&mut obj, op));
         }
+        // first(), last(), the three ways of iterating and capacity agree with entries()
+        let es = obj.entries();
+        let views_ok = obj.first().map(|e| e as *const Entry) == es.first().map(|e| e as *const Entry)
+            && obj.last().map(|e| e as *const Entry) == es.last().map(|e| e as *const Entry)
+            && obj.iter().count() == es.len()
+            && obj.iter().zip(es.iter()).all(|(a, b)| std::ptr::eq(a, b))
+            && (&obj).into_iter().zip(es.iter()).all(|(a, b)| std::ptr::eq(a, b))
+            && obj.clone().into_iter().zip(es.iter()).all(|(a, b)| a == *b)
+            && obj.capacity() >= es.len();
         format!(
-            "R={} L={},{} E={} Q={} B={}",
+            "R={} L={},{}{} E={} Q={} B={}",
             if results.is_empty() { "-".to_string() } else { results.join("|") },
             obj.len(),
             obj.is_empty() as u8,
+            if views_ok { "" } else { ",VIEWS-DISAGREE" },
             entries_str(&obj),
             queries_str(&obj, nkeys),
             buckets_str(&obj)
@@ -242,6 +253,9 @@ fn op_instances(nkeys: usize, nvals: usize, len: usize) -> Vec<String> {
         for v in 0..nvals {
             ops.push(format!("push:{k}:{v}"));
             ops.push(format!("pushf:{k}:{v}"));
+            if v == 0 {
+                ops.push(format!("pushef:{k}:{v}"));
+            }
             for n in ["0", "1", "*"] {
                 ops.push(format!("ins:{k}:{v}:{n}"));
                 ops.push(format!("insf:{k}:{v}:{n}"));
@@ -332,7 +346,7 @@ pub fn generate(args: &Args, out: &mut Out) {
                 }
                 5 | 6 => {
                     len_guess += 1;
-                    format!("pushf:{k}:{v}")
+                    if r.chance(1, 3) { format!("pushef:{k}:{v}") } else { format!("pushf:{k}:{v}") }
                 }
                 7 | 8 => format!("ins:{k}:{v}:{pulls}"),
                 9 | 10 => format!("insf:{k}:{v}:{pulls}"),
